@@ -1,9 +1,12 @@
 #!/bin/sh
 # usage: checks/soak.sh <seed>...   runs every quick check under each seed on the current tree; prints one line per check
 cd /verif
+# evidence/ describes the default-seed run: keep it
+rm -rf .build/evidence_soak; cp -r evidence .build/evidence_soak
 for s in "$@"; do
   for p in C01 C02 C03 C04 C05 C06 C07 C08 C09 C10 C11 C12 C13 C14 C15 C16 C17 C18 C19 C20; do
     out=$(VERIF_SEED=$s ./check $p 2>&1); rc=$?
     echo "seed=$s $p rc=$rc $(echo "$out" | grep -E 'VIOLATION' | head -1 | cut -c1-120) $(echo "$out" | grep -c KNOWN-FINDING) known"
   done
 done
+rm -rf evidence; cp -r .build/evidence_soak evidence
